@@ -186,7 +186,7 @@ fn c10_blocks(ctx: &Ctx) -> Vec<Blk> {
     }
     if ctx.leg == crate::driver::Leg::Tsan {
         for k in 0..32 {
-            b.push(Blk::Stress { chunk: [1usize, 2, 4096][k % 3], gzip: if k % 4 == 3 { Some(1) } else { None }, n: 300, salt: k as u64 });
+            b.push(Blk::Stress { chunk: [1usize, 2, 4096][k % 3], gzip: if k % 4 == 3 { Some(1) } else { None }, n: 3000, salt: k as u64 });
         }
         for prog in programs(2, 2) {
             b.push(Blk::Enum { chunk: 2, gzip: None, prog, policy: POLICIES[b.len() % 3], cap: 200, bound: u32::MAX });
